@@ -301,12 +301,6 @@ class LRI(dict):
                 ret[key] = value
             return ret
 
-    def __copy__(self):
-        # the default (reduce-based) copy.copy() would share the linked
-        # list and the link table with the original
-        with self._lock:
-            return self.copy()
-
     def setdefault(self, key, default=None):
         with self._lock:
             try:
@@ -319,12 +313,10 @@ class LRI(dict):
     def update(self, E, **F):
         # E and F are throwback names to the dict() __doc__
         with self._lock:
-            if E is self:
-                if F:
-                    self.update((), **F)
-                return
             setitem = self.__setitem__
-            if callable(getattr(E, 'keys', None)):
+            if E is self:
+                pass
+            elif callable(getattr(E, 'keys', None)):
                 for k in E.keys():
                     setitem(k, E[k])
             else:
@@ -354,6 +346,12 @@ class LRI(dict):
         val_map = super().__repr__()
         return ('%s(max_size=%r, on_miss=%r, values=%s)'
                 % (cn, self.max_size, self.on_miss, val_map))
+
+    def __copy__(self):
+        # the default (reduce-based) copy.copy() would share the linked
+        # list and the link table with the original
+        with self._lock:
+            return self.copy()
 
 
 class LRU(LRI):
